@@ -850,6 +850,20 @@ func main() {
 		}
 		if r.Chance(30) {
 			sc.chunk = 30 + r.Intn(60)
+			// a value that is certainly split (only table-encoded hashes are), with an expiry that has passed, none,
+			// or a distant one: the chunks of one key must behave like the key
+			f := genEntry(r, 90, "hash", "table")
+			for len(f.Val.Hash) < 4 {
+				f.Val.Hash = append(f.Val.Hash, [2][]byte{[]byte(fmt.Sprintf("pad%d", len(f.Val.Hash))), []byte(strings.Repeat("p", 40))})
+			}
+			switch r.Intn(3) {
+			case 0:
+				f.ExpireAtMs = base - 5000
+			case 1:
+				f.ExpireAtMs = base + 200000
+			}
+			f.DB = sc.entries[0].DB
+			sc.entries = append([]*rdbgen.Entry{f}, sc.entries...)
 		}
 		switch r.Intn(6) {
 		case 0:
